@@ -69,7 +69,7 @@ PROPS = {
     "C06": dict(
         title="The node that starts is always a highest-compound-priority ready node",
         core=["SCH-PRIO", "GT-CARRY", "SCH-FRESHPICK"],
-        aux=["GT-PRIO-SINK", "SCH-RSET", "GT-FORMULA", "GT-POP"],
+        aux=["GT-PRIO-SINK", "SCH-RSET", "GT-FORMULA", "GT-POP", "SCH-EAGER", "SCH-STALEPICK"],
         explanation="The choice is max over the whole runnable set keyed by the executed graph's own compound-priority table; "
                     "nothing can enlarge the runnable set between choice and dispatch; the table is populated on every path by "
                     "which a graph reaches the scheduler (typestate over graph values).",
@@ -91,7 +91,7 @@ PROPS = {
     "C08": dict(
         title="The scheduler never idles while a ready node and a free slot both exist",
         core=["SCH-WAITSITES", "SCH-WAITMODE"],
-        aux=["SCH-GUARD", "SCH-MIXWAIT", "SCH-POOLSIZE", "SIB-FWD-SCHED", "SCH-TASKDONE", "SCH-ARMS"],
+        aux=["SCH-GUARD", "SCH-MIXWAIT", "SCH-POOLSIZE", "SIB-FWD-SCHED", "SCH-TASKDONE", "SCH-ARMS", "VAL-SYNTHSEQ", "SCH-EAGER", "SCH-STALEPICK"],
         explanation="Every blocking wait site of the loop is under exactly one of three licences (full or nothing runnable; "
                     "sequential candidate with something in flight; sequential node just dispatched); the first two wait "
                     "FIRST_COMPLETED; the pool has max_concurrency workers. SCH-MIXWAIT reports the exception the property names.",
@@ -121,7 +121,7 @@ PROPS = {
     "C11": dict(
         title="A setup node runs at most once per DAG instance and its value is reused",
         core=["OWN-WRITEBACK", "OWN-SETUP", "SCH-PRUNE"],
-        aux=["OWN-DEEPCOPY", "VAL-SETUPDEP", "VAL-SETUPARG", "SIB-DAG", "SIB-FWD", "GT-PRESENCE", "OWN-SCHEDCOPY", "VAL-GENREUSE", "GT-ALIASNORM"],
+        aux=["OWN-DEEPCOPY", "VAL-SETUPDEP", "VAL-SETUPARG", "SIB-DAG", "SIB-FWD", "GT-PRESENCE", "OWN-SCHEDCOPY", "VAL-GENREUSE", "GT-ALIASNORM", "GT-DEFAULTSEL"],
         explanation="Who-may-write: the only element write into a DAG's results on a run path is the guarded setup write-back and "
                     "the only re-binding is setup() on a setup-only graph; pruning by membership precedes scheduling; build-time "
                     "refusals present; selection forwarded.",
@@ -131,7 +131,7 @@ PROPS = {
     "C12": dict(
         title="target / exclude / root selection executes exactly the documented closure",
         core=["GT-SELECT"],
-        aux=["GT-ALIAS", "REF-MAT", "SIB-FWD", "GT-PRESENCE", "GT-POP", "REF-DEREF", "GT-ALIASNORM"],
+        aux=["GT-ALIAS", "REF-MAT", "SIB-FWD", "GT-PRESENCE", "GT-POP", "REF-DEREF", "GT-ALIASNORM", "GT-DEFAULTSEL"],
         explanation="Three guarded steps in dominance order roots -> exclude -> targets, each with the right closure primitive "
                     "(descendants incl. self / ancestors incl. self); alias order node, tag, id; the ValueErrors are reachable and "
                     "unconditional under their tests; unexecuted ids read as None.",
@@ -200,7 +200,7 @@ PROPS = {
     "C19": dict(
         title="A composed DAG computes the outputs from the supplied intermediate values",
         core=["REF-FIELDS", "REF-KEY", "OWN-COMPOSE"],
-        aux=["VAL-COMPOSE", "VAL-COMPOSE-ANC", "REF-REWIRE", "GT-ALIAS", "GT-POP"],
+        aux=["VAL-COMPOSE", "VAL-COMPOSE-ANC", "VAL-COMPOSE-OVERLAP", "REF-REWIRE", "GT-ALIAS", "GT-POP"],
         explanation="Rewiring covers every reference field and keeps key paths; in-place edits touch deep copies only; the three "
                     "ValueErrors are reachable with tests not weaker than stated (input-depends-on-input uses the ancestor "
                     "closure).",
@@ -210,7 +210,7 @@ PROPS = {
     "C20": dict(
         title="Calling a DAG inside a DAG is equivalent to inlining it",
         core=["REF-PREFIX", "REF-ASDICT", "REF-KEY", "REF-SEED"],
-        aux=["LCK-PAIR", "REF-SHAPE", "REF-UNIQ", "REF-FLAGPRED", "REF-GETITEM", "REF-TRACE"],
+        aux=["LCK-PAIR", "REF-SHAPE", "REF-UNIQ", "REF-FLAGPRED", "REF-GETITEM", "REF-TRACE", "SIB-CTOR", "REF-STABLEID"],
         explanation="Every inner id reaching an outer table passes the prefixer exactly once; stub ids are not seeded with "
                     "defaults; asdict restoration of every reference field; return-shape agreement; prefix push/pop paired; "
                     "registration ids call-site unique (reports the known collision).",
